@@ -128,6 +128,22 @@ pub fn run(prop: &str, a: &Args, rep: &mut Report) {
     }
     handle(rep, std::mem::take(&mut batch));
 
+    // ---- one instruction repeated 126 ... 70,001 times in a row ----
+    let mut rng = Rng::derive(a.seed, a.shard, 8);
+    for k in 0..(mix.structured / 16).max(4) {
+        if cfg!(miri) {
+            break;
+        }
+        let c = gen_repeat(&mut rng);
+        rep.count("repeat_programs");
+        rep.set("repeat_lengths", format!("{}", (c.prog.len() / 8).saturating_sub(29)));
+        batch.push(pre_run(c, format!("repeat#{}.{k}", a.shard), BUDGET));
+        if batch.len() >= batch_n {
+            handle(rep, std::mem::take(&mut batch));
+        }
+    }
+    handle(rep, std::mem::take(&mut batch));
+
     // ---- C04, second clause: programs with eBPF-to-eBPF calls must be refused by Cranelift ----
     #[cfg(feature = "std")]
     if prop == "C04" {
